@@ -59,6 +59,10 @@ def sut(fn, *args, **kw):
 
 
 class _Alarm:
+    """CPU-time guard: ITIMER_VIRTUAL (user CPU time of this process), so machine load cannot trip
+    it; after the first expiry it re-fires every 50 ms, so an exception swallowed by a bare
+    `except:` inside the library is raised again until it gets out."""
+
     def __init__(self, seconds, exc):
         self.seconds = seconds
         self.exc = exc
@@ -67,19 +71,19 @@ class _Alarm:
         raise self.exc
 
     def __enter__(self):
-        self.old = signal.signal(signal.SIGALRM, self._fire)
-        signal.setitimer(signal.ITIMER_REAL, self.seconds)
+        self.old = signal.signal(signal.SIGVTALRM, self._fire)
+        signal.setitimer(signal.ITIMER_VIRTUAL, self.seconds, 0.05)
         return self
 
     def __exit__(self, *a):
-        signal.setitimer(signal.ITIMER_REAL, 0)
-        signal.signal(signal.SIGALRM, self.old)
+        signal.setitimer(signal.ITIMER_VIRTUAL, 0)
+        signal.signal(signal.SIGVTALRM, self.old)
         return False
 
 
 def time_guard(seconds, exc=None):
-    """Runaway guard (library loops): raises Inconclusive by default."""
-    return _Alarm(seconds, exc if exc is not None else Inconclusive("guard %ss" % seconds))
+    """Runaway guard (library loops), in CPU seconds: raises Inconclusive by default."""
+    return _Alarm(seconds, exc if exc is not None else Inconclusive("guard %ss cpu" % seconds))
 
 
 class Ctx:
